@@ -75,8 +75,14 @@ def case_ret(run, r0, code, pcx, name, config, fname, args, exp, data, alias, o,
     if True:
         got = r.mem(r.named['data']) if L else ()
         if code == 0:
-            pairs = [(T.extract(got, 8 * i, min(32, 8 * L - 8 * i)), T.extract(exp, 8 * i, min(32, 8 * L - 8 * i))) for i in range(0, L, 4)] or [((), ())]
-            ob = run.equal(name, pairs, r.pc, timeout_s=300 if run.tier == 'thorough' else 120)
+            if L:
+                def specf():
+                    nblocks = (o + L + 63) // 64
+                    pos_, Bz_ = pos_term(kind, o)
+                    return T.bxor(data, T.extract(keystream(alias, nblocks, Bz_), 8 * o, 8 * L))
+                ob = run.equal_spec(name, got, specf, r.pc, timeout_s=300 if run.tier == 'thorough' else 120)
+            else:
+                ob = run.equal(name, [], r.pc)
             if ob.status == 'sat':
                 confirm_c01(run, config, fname, args, ob.model, r, exp, 'mismatch', 'keystream differs from the reference', alias, o, L)
         else:
